@@ -151,6 +151,7 @@ class Config:
         self.opaque_globals = {}   # module-global name -> SV factory (symbolic configuration inputs)
         self.pure_builtins = set()
         self.extern = {}           # dotted external function name -> handler(ex, st, args) -> outcomes
+        self.inline_star_ctors = set()  # classes whose constructor may be inlined with a symbolic *args tuple
         self.summary_result_tags = {}  # summary name -> type tag of its result
         self.class_attr_models = {}  # 'core.Path._CACHE' -> callable(ex, st) -> outcomes (modelled class-level state)
         self.scope_key_types = {}  # scope key constant name -> type tag of the bound value
@@ -167,7 +168,13 @@ class Executor:
         self.repo, self.facts, self.cfg = repo, facts, config or Config()
         self.ref_modules = ref_modules or {}
         self.ref_funcs = {}
+        self.ref_imports = {}
         for mname, tree in self.ref_modules.items():
+            imap = self.ref_imports.setdefault(mname, {})
+            for node in ast.walk(tree):
+                if isinstance(node, ast.ImportFrom) and node.module and node.module.startswith('glom.'):
+                    for al in node.names:
+                        imap[al.asname or al.name] = (node.module.split('.', 1)[1], al.name)
             for node in tree.body:
                 if isinstance(node, ast.FunctionDef):
                     self.ref_funcs[node.name] = (mname, node)
@@ -531,6 +538,8 @@ class Executor:
             if o is not None:
                 if o.kind == 'list':
                     return [('ok', st, z3.Length(o.seq) > 0)]
+                if o.kind == 'kwdict':
+                    return [('ok', st, z3.BoolVal(len(o.items) > 0))]
                 if o.kind == 'dict':
                     return [('ok', st, o.count > 0)] if getattr(o, 'count', None) is not None else [('ok', st, z3.BoolVal(True))]
                 return [('ok', st, z3.BoolVal(True))]
@@ -541,6 +550,11 @@ class Executor:
                 ci = self.repo.classes.get(cname)
                 if ci is None or not (self.repo.lookup_method(ci, '__bool__') or self.repo.lookup_method(ci, '__len__')):
                     return [('ok', st, z3.BoolVal(True))]
+            if v.t == 'boolish':     # result of a rich comparison: bool() of it is a pure user-level primitive
+                res = []
+                for kind, s3, r in self.prim(st, 'bool', [v], pure=True):
+                    res.append(('ok', s3, r.v == Z.TRUE) if kind == 'ok' else (kind, s3, r))
+                return res
             if v.t == 'simple':      # value known not to run user code on bool(): None / sentinel / str / int / tuple / glom object
                 return [('ok', st, Z.truthy_(v.v))]
             # statically untyped reference: case split on the payload kinds whose truthiness is known, else opaque primitive
@@ -554,7 +568,7 @@ class Executor:
                            z3.Implies(Z.is_tuple(v.v), Z.truthy_(v.v) == (z3.Length(Z.tupitems(v.v)) > 0)))
                     res.append(('ok', s2, Z.truthy_(v.v)))
                 else:
-                    for kind, s3, r in self.prim(s2, 'bool', [v]):
+                    for kind, s3, r in self.prim(s2, 'bool', [v], pure=True):
                         if kind == 'ok':
                             res.append(('ok', s3, r.v == Z.TRUE))
                         else:
@@ -582,6 +596,11 @@ class Executor:
                 m, node = self.ref_funcs[name]
                 return SV('func', Closure(node, m, None, name=name))
             # names imported from glom into reference modules resolve through the glom modules
+            if name in self.ref_imports.get(module, {}):
+                gm, gname = self.ref_imports[module][name]
+                r = self._glom_global(st, gname, gm, strict=True)
+                if r is not None:
+                    return r
             for gm in ('core', 'matching', 'mutation', 'reduction', 'grouping', 'streaming', 'cli'):
                 r = self._glom_global(st, name, gm, strict=True)
                 if r is not None:
@@ -606,7 +625,14 @@ class Executor:
             return None
         kind, ident = canon
         if kind == 'singleton':
-            return sv_ref(const(ident), 'simple' if ident not in ('T', 'S', 'A') else 'inst:core.TType')
+            if ident in ('T', 'S', 'A', '_T_STAR', '_T_STARSTAR'):
+                return sv_ref(const(ident), 'inst:core.TType')
+            scls = self.facts.singleton_class.get(ident)
+            if scls == 'Sentinel' and self.facts.singleton_kind.get(ident) == 'sentinel':
+                return sv_ref(const(ident), 'simple')
+            if scls and scls in self.repo.classes:
+                return sv_ref(const(ident), 'inst:' + scls)
+            return sv_ref(const(ident))
         if kind == 'class':
             return SV('class', ident)
         if kind == 'function':
@@ -772,7 +798,9 @@ class Executor:
             for v in vals:
                 self.publish(s, v)
             terms = [self.box(s, v) for v in vals]
-            t = fn('fstr_L%d_%d' % (e.lineno, e.col_offset), *([R] * len(terms)), Z.S)(*terms) if terms else z3.StringVal(
+            import hashlib
+            shape = ''.join(v.value if isinstance(v, ast.Constant) else '{%s%s}' % ('!' + chr(v.conversion) if v.conversion != -1 else '', '') for v in e.values)
+            t = fn('fstr_' + hashlib.sha1(shape.encode()).hexdigest()[:10], *([R] * len(terms)), Z.S)(*terms) if terms else z3.StringVal(
                 ''.join(v.value for v in e.values if isinstance(v, ast.Constant)))
             outs.append(('ok', s, SV('str', t)))
         return outs
@@ -964,7 +992,7 @@ class Executor:
         name = {ast.Lt: 'lt', ast.LtE: 'le', ast.Gt: 'gt', ast.GtE: 'ge'}[type(op)]
         if a.k == 'none' or b.k == 'none':
             return self.raise_builtin(st, 'TypeError', [sv_str('unorderable')])
-        return self.prim(st, 'cmp_' + name, [a, b])
+        return self.prim(st, 'cmp_' + name, [a, b], result_tag='boolish')
 
     def identical(self, st, a, b):
         if a.k == 'none' and b.k == 'none':
@@ -1036,7 +1064,10 @@ class Executor:
             return [('ok', st, ta == tb)]
         res = []
         for kind, s3, r in self.prim(st, 'cmp_eq', [a, b]):
-            res.append((kind, s3, (r.v == Z.TRUE) if kind == 'ok' else r))
+            if kind != 'ok':
+                res.append((kind, s3, r)); continue
+            for k2, s4, c in self.truth(s3, sv_ref(r.v, 'boolish')):
+                res.append((k2, s4, c))
         return res
 
     def contains(self, st, a, b):
@@ -1077,7 +1108,8 @@ class Executor:
                 return [('ok', st, has[kb])]
             if b.t == 'chainmap':
                 return [('ok', st, self.cm_has(st, b, self.box(st, a)))]
-        if b.k == 'seq' and a.k in ('str', 'int', 'none'):
+        if b.k == 'seq' and (a.k in ('str', 'int', 'none', 'class') or (a.k == 'ref' and a.t == 'simple')):
+            # membership of a value whose == is identity (ints/strings/None/classes/sentinels) in a tuple of such values
             return [('ok', st, z3.Contains(b.v, z3.Unit(self.box(st, a))))]
         res = []
         for kind, s3, r in self.prim(st, 'contains', [b, a]):
